@@ -1,7 +1,7 @@
 (* Proofs/UdistLaws.v — laws of the subset counts (any pool, any comparison) and what
    UDist.PMF / UDist.CDF (tied path) are in terms of them, for every real argument u. *)
 From Coq Require Import List ZArith Lia Arith Bool QArith Qround Lqa.
-From MM Require Import Base.Num Base.GEComb Spec.Ucount Proofs.Ucount Model.Choose Model.Udist
+From MM Require Import Base.Num Base.GEComb Spec.Ucount Proofs.Ucount Model.GEChoose Model.Udist
   Proofs.Udist Proofs.UdistTied Proofs.UdistTable.
 Import ListNotations.
 Open Scope Z_scope.
